@@ -297,8 +297,33 @@ def m1_cmdseq(ctx: Any, prog: Program) -> None:
         ctx.check('C20.M1', False, mod, ps, 'pad_string has no raising length check: text longer than the field is cut silently (reader and writer then disagree on the value)', func='pad_string', text='cmdseq fixed-width strings raise')
     else:
         ctx.shape('C20.M1', any(ast.unparse(n.test) in ('len(text) > length', 'length < len(text)') for n in raising), mod, raising[0], 'raising guard compares len(text) with the field length', func='pad_string', text='cmdseq fixed-width strings raise')
-    for c in ast.walk(packs[0]):
-        pass
+    # reading side: a field that is completely filled has no NUL terminator (pad_string writes none when len(text) == length) and must
+    # come back whole.  `bytes.find` answers -1 for "no NUL"; used as a slice bound unchecked it silently drops the last character.
+    sc = mod.func('strip_cstring')
+    prm = sc.args.args[0].arg
+    finds = [c for c in ast.walk(sc) if isinstance(c, ast.Call) and isinstance(c.func, ast.Attribute) and c.func.attr in ('find', 'rfind') and dotted(c.func.value) == prm]
+    find_vars = {t.id for a in ast.walk(sc) if isinstance(a, ast.Assign) and any(a.value is f for f in finds) for t in a.targets if isinstance(t, ast.Name)}
+    n_forms = 0
+    for sl in [x for x in ast.walk(sc) if isinstance(x, ast.Subscript) and isinstance(x.slice, ast.Slice) and dotted(x.value) == prm]:
+        up = sl.slice.upper
+        from_find = up is not None and (any(up is f for f in finds) or (isinstance(up, ast.Name) and up.id in find_vars))
+        if from_find:
+            n_forms += 1
+            names = find_vars | {ast.unparse(f) for f in finds}
+            guarded = any(isinstance(c, ast.Compare) and (ast.unparse(c.left) in names or any(ast.unparse(x) in names for x in c.comparators)) for c in ast.walk(sc))
+            ctx.check('C20.M1', guarded, mod, sl, f'strip_cstring cuts at `{ast.unparse(up)}` = {prm}.find(NUL) without testing for -1: a field filled to its full width has no terminator, and `{ast.unparse(sl)}` then drops '
+                      'its last character', func='strip_cstring', text='cmdseq full-width field read whole')
+        elif up is not None and isinstance(up, ast.Call) and isinstance(up.func, ast.Attribute) and up.func.attr == 'index':
+            n_forms += 1
+            par_if = [i for i in ast.walk(sc) if isinstance(i, ast.If) and any(sl is x for b in i.body for x in ast.walk(b))]
+            in_test = any(isinstance(i.test, ast.Compare) and isinstance(i.test.ops[0], ast.In) and dotted(i.test.comparators[0]) == prm for i in par_if)
+            in_try = any(isinstance(t, ast.Try) and any(sl is x for b in t.body for x in ast.walk(b)) for t in ast.walk(sc))
+            ctx.check('C20.M1', in_test or in_try, mod, sl, f'`{ast.unparse(sl)}` raises ValueError for a field without terminator (a name filling the whole field)', func='strip_cstring', text='cmdseq full-width field read whole')
+    if not n_forms:
+        part = any(isinstance(c, ast.Call) and isinstance(c.func, ast.Attribute) and c.func.attr in ('partition', 'split') and dotted(c.func.value) == prm for c in ast.walk(sc))
+        ctx.shape('C20.M1', part, mod, sc, 'strip_cstring cuts at the first NUL through an enumerated idiom (in + index, find with a -1 test, partition/split)', func='strip_cstring', text='cmdseq full-width field read whole')
+    whole = [r for r in ast.walk(sc) if isinstance(r, ast.Return) and r.value is not None]
+    ctx.check('C20.M1', bool(whole), mod, sc, 'strip_cstring returns a value', func='strip_cstring', text='strip_cstring returns')
     raw = [a for a in args if isinstance(a, ast.Attribute) and dotted(a.value) == 'cmd' and a.attr in ('exe', 'args', 'ensure_file')]
     ctx.check('C20.M1', not raw, mod, packs[0], 'string fields must go through pad_string', func='write', text='cmdseq strings padded')
 
@@ -905,6 +930,9 @@ def m5_tables(ctx: Any, prog: Program) -> None:
 
 
 MUTANTS: List[Dict[str, Any]] = [
+    {'id': 'cmdseq_strip_find_unchecked', 'file': 'cmdseq.py', 'find': "    if b'\\0' in data:\n        return data[:data.index(b'\\0')].decode('ascii')\n    else:\n        return data.decode('ascii')", 'replace': "    end = data.find(b'\\0')\n    return data[:end].decode('ascii')", 'expect': 'C20.M1'},
+    {'id': 'cmdseq_strip_find_checked', 'file': 'cmdseq.py', 'find': "    if b'\\0' in data:\n        return data[:data.index(b'\\0')].decode('ascii')\n    else:\n        return data.decode('ascii')", 'replace': "    end = data.find(b'\\0')\n    if end == -1:\n        return data.decode('ascii')\n    return data[:end].decode('ascii')", 'expect': None},
+    {'id': 'cmdseq_strip_partition', 'file': 'cmdseq.py', 'find': "    if b'\\0' in data:\n        return data[:data.index(b'\\0')].decode('ascii')\n    else:\n        return data.decode('ascii')", 'replace': "    return data.partition(b'\\0')[0].decode('ascii')", 'expect': None},
     {'id': 'event_tag_flag_twice', 'file': 'choreo.py', 'find': "                '<hh',\n                add_to_pool(self.tag_name or ''),", 'replace': "                '<Bhh', True,\n                add_to_pool(self.tag_name or ''),", 'expect': 'C20.M1'},
     {'id': 'flex_curve_int', 'file': 'choreo.py', 'find': "            [time, value, curve_type] = binformat.struct_read('<fBH', file)\n            mag_track.append", 'replace': "            [time, value, curve_type] = binformat.struct_read('<fBI', file)\n            mag_track.append", 'expect': 'C20.M1'},
     {'id': 'loop_count_unsigned_writer', 'file': 'choreo.py', 'find': "            file.write(struct.pack('<b', self.loop_count))", 'replace': "            file.write(struct.pack('<B', self.loop_count))", 'expect': 'C20.M1', 'note': 'loop_count may be -1: signedness matters here'},
